@@ -6,7 +6,7 @@
    filter of Spec/RTS.v on the closed-form integrated-Wiener transition. *)
 From Coq Require Import List Arith.
 From PD Require Import Base.Field Base.Matrix Base.Solve Model.Gauss Model.Poly Model.Prior Model.Solver Spec.RTS
-  Proofs.GaussProofs Proofs.FilterProofs Proofs.PriorProofs Proofs.SolverRefine.
+  Proofs.GaussProofs Proofs.FilterProofs Proofs.PriorProofs Proofs.SolverRefine Proofs.SolverGrid.
 Import ListNotations.
 
 Section C02.
@@ -72,6 +72,24 @@ Section C02.
         symmetric n (n_cov rv) -> symmetric k R ->
         kf_update minv n k c Hm r R rv = Some upd -> symmetric n (n_cov upd)).
   Proof. exact (conj kf_predict_symmetric (conj iwp_Q_closed_symmetric kf_update_symmetric)). Qed.
+
+  (* ... and therefore, by induction over the list of step sizes: ON EVERY FIXED
+     GRID (any number of steps, any nonzero step sizes) the times and marginals
+     produced by the scan in solve_fixed_grid are exactly those of the iterated
+     textbook EKF (isotropic model, TS0, uncalibrated filter; any q, d, ODE order,
+     polynomial vector field, damping, base scale; a singular innovation makes
+     both sides fail at the same step) *)
+  Theorem C02_isotropic_ts0_fixed_grid_is_ekf :
+    forall (q d : nat) (o : @odeP F) (base2 : @vec F) (damp2 : F) (dts : list F),
+      let cf := mkCfg (mkShape Iso q d) Filter CalNone TS0 o base2 damp2 in
+      Forall (fun dt => dt <> f0) dts ->
+      forall (st : @sstate F) (rv : @normal F) (pc : list (@cond F)),
+        st_u st = [rv] -> st_post st = mkPost [rv] pc ->
+        symmetric (S q) (n_cov rv) ->
+        option_map (map view) (fixed_grid_states minv cf st dts)
+        = option_map (map lift1)
+            (ekf_grid_iso q d o (fmul (vget base2 0) f1) damp2 (st_t st) rv dts).
+  Proof. exact iso_ts0_fixed_grid_is_ekf. Qed.
 End C02.
 
 Print Assumptions C02_prediction_is_kalman_prediction.
@@ -79,3 +97,4 @@ Print Assumptions C02_iwp_transition_closed_form.
 Print Assumptions C02_correction_is_kalman_update.
 Print Assumptions C02_isotropic_ts0_filter_step_is_ekf_step.
 Print Assumptions C02_symmetry_is_invariant.
+Print Assumptions C02_isotropic_ts0_fixed_grid_is_ekf.
